@@ -12,7 +12,7 @@ EXTENDS Trivia, Json, IOUtils
 Rec == ndJsonDeserialize(IOEnv.TRACE)
 
 JudgeVariant(base, x) ==
-  IF ~WellFormed(x.run, x.top) THEN <<"run is not in the trivia language", ToString(x.run)>>
+  IF ~WellFormed(x.run, x.top, x.prev) THEN <<"run is not in the trivia language", ToString(x.run)>>
   ELSE IF RunText(x.run) # x.text THEN <<"run was not rendered as the specification renders it", ToString(x.run)>>
   ELSE IF x.res.outcome \notin {"ok", "err"} THEN <<"outcome is not Ok or a structured Error", x.res.outcome, ToString(x.run), ToString(x.pos)>>
   ELSE IF x.res.outcome # base.outcome THEN <<"trivia changes acceptance", ToString(x.run), "at position", ToString(x.pos), base.outcome, x.res.outcome>>
